@@ -204,6 +204,25 @@ def body_integrate(case, ctx):
         compare(mg.integrate(fun, non_vectorized=True, integration_chunk_size=c), "non-vectorised-chunked", f"integrate(f, non_vectorized=True, integration_chunk_size={c}) total={total}")
     compare(mg.integrate(fun, integration_chunk_size=chunks[0]), "vectorised", f"integrate(f, integration_chunk_size={chunks[0]})")
 
+    # ---- point-by-point route with a guarded integrand (the Coulomb-kernel idiom `if coincident: return 0`): a Python int
+    # wherever the last argument is the first node of the last grid, i.e. at the first combination and at every stride
+    # start, floats elsewhere.  Same nested-loop reference built from the same guarded function.
+    first_last = np.array(doms[-1].points[0], dtype=float, copy=True)
+
+    def fun_guarded(*args):
+        if np.array_equal(np.asarray(args[-1], dtype=float), first_last):
+            return 3
+        return fun(*args)
+
+    gterms = [w * float(fun_guarded(*[doms[i].points[j] for i, j in enumerate(t)])) for t, w in zip(tuples, wref)]
+    ref_plain, tol_plain = ref, tol
+    ref = math.fsum(gterms)
+    tol = 20.0 * EPS * (total + 20) * math.fsum(abs(x) for x in gterms) + 1e-300
+    compare(mg.integrate(fun_guarded, non_vectorized=True), "non-vectorised-int-guard", "integrate(guarded f returning a Python int at some nodes, non_vectorized=True)")
+    for c in chunks:
+        compare(mg.integrate(fun_guarded, non_vectorized=True, integration_chunk_size=c), "non-vectorised-int-guard", f"integrate(guarded f returning a Python int at some nodes, non_vectorized=True, integration_chunk_size={c}) total={total}")
+    ref, tol = ref_plain, tol_plain
+
     # ---- separable integrands: product of the single-grid integrals
     if g1 is not None:
         prod, pscale = 1.0, 1.0
